@@ -11,7 +11,7 @@ use rand::{Fill, Rng};
 use vlib::case::Bytes;
 use vlib::gen::{self, Shape};
 use vlib::runner::{self, outcome, Job, Obs, Outcome, Property};
-use vlib::script_rng::ScriptRng;
+use vlib::script_rng::{stream_byte, ScriptRng};
 use vlib::{ck, Pat, Z};
 
 const QUICK: u32 = 600;
@@ -32,7 +32,7 @@ where
 }
 
 fn word(script: &[u8], index: usize, nb: usize) -> Vec<u8> {
-    (0..nb).map(|i| script.get(index * nb + i).copied().unwrap_or(0)).collect()
+    (0..nb).map(|i| stream_byte(script, index * nb + i)).collect()
 }
 
 /// Standard sampling and Fill derive every digit from the stream in little-endian order
@@ -317,8 +317,8 @@ fn rejection_cases(sh: Shape) -> BoxedStrategy<(Pat, Pat, Vec<Pat>, u32)> {
 /// Unbiasedness for SMALL ranges on wide types, where the candidate words of one output value
 /// cannot be enumerated. Uses the word -> value correspondence lo + floor(v*size/2^W) (checked
 /// separately for every accepted word) and the assumption that, within the candidate interval of
-/// one output value, the accepted words form a prefix; the assumption is spot-checked on both
-/// sides of the boundary and the case is skipped (never reported) if it does not hold. The number
+/// one output value, the accepted words form a prefix or a suffix; the assumption is spot-checked
+/// inside and outside the located interval and the case is skipped (never reported) if it does not hold. The number
 /// of accepted candidates, found by bisection, must be the same for every sampled output value.
 fn eval_unbiased_bisect<T: Int + SampleUniform>(c: &(Pat, Pat, Vec<Pat>), obs: &mut Obs) -> Result<(), String> {
     let (p, q): (T, T) = (ld(&c.0), ld(&c.1));
@@ -348,35 +348,48 @@ fn eval_unbiased_bisect<T: Int + SampleUniform>(c: &(Pat, Pat, Vec<Pat>), obs: &
                 }
                 Ok(a)
             };
-            // boundary: smallest k in [0, cnt] such that candidate k is not accepted (cnt if all are)
-            let count = if acc(&cnt.add_i(-1))? {
-                cnt.clone()
-            } else if !acc(&Z::zero())? {
-                Z::zero()
-            } else {
-                let (mut a, mut b) = (Z::zero(), cnt.add_i(-1)); // acc(a) true, acc(b) false
-                while b.sub(&a) > Z::one() {
-                    let mid = a.add(&b).shr_floor(1);
-                    if acc(&mid)? { a = mid } else { b = mid }
+            // The accepted candidates are assumed to be a prefix (bnum's `lo <= zone`) or a suffix
+            // (Lemire's `lo >= threshold`) of the candidate interval; `start..start+count` below.
+            let (a_first, a_last) = (acc(&Z::zero())?, acc(&cnt.add_i(-1))?);
+            let (start, count) = match (a_first, a_last) {
+                (true, true) => (Z::zero(), cnt.clone()),
+                (false, false) => (Z::zero(), Z::zero()),
+                (true, false) => {
+                    let (mut a, mut b) = (Z::zero(), cnt.add_i(-1)); // acc(a) true, acc(b) false
+                    while b.sub(&a) > Z::one() {
+                        let mid = a.add(&b).shr_floor(1);
+                        if acc(&mid)? { a = mid } else { b = mid }
+                    }
+                    (Z::zero(), b)
                 }
-                b
+                (false, true) => {
+                    let (mut a, mut b) = (Z::zero(), cnt.add_i(-1)); // acc(a) false, acc(b) true
+                    while b.sub(&a) > Z::one() {
+                        let mid = a.add(&b).shr_floor(1);
+                        if acc(&mid)? { b = mid } else { a = mid }
+                    }
+                    (b.clone(), cnt.sub(&b))
+                }
             };
-            // spot-check the prefix assumption on both sides of the boundary
+            obs.label_if(a_last && !a_first, "accepted candidates form a suffix of the interval");
+            // spot-check the interval assumption inside and outside start..start+count
             let mut prefix_ok = true;
             for (j, x) in c.2.iter().enumerate() {
                 let rnd = Z::from_le_unsigned(&x.0).add(&Z::from_u64(j as u64 * 7919 + hi_idx as u64));
                 if !count.is_zero() {
-                    let below = rnd.divrem_trunc(&count).1;
-                    prefix_ok &= acc(&below)?;
+                    let inside = start.add(&rnd.divrem_trunc(&count).1);
+                    prefix_ok &= acc(&inside)?;
                 }
-                let above_n = cnt.sub(&count);
-                if !above_n.is_zero() {
-                    let above = count.add(&rnd.divrem_trunc(&above_n).1);
-                    prefix_ok &= !acc(&above)?;
+                let outside_n = cnt.sub(&count);
+                if !outside_n.is_zero() {
+                    // the complement of start..start+count inside 0..cnt, mapped monotonically
+                    let o = rnd.divrem_trunc(&outside_n).1;
+                    let outside = if o < start { o } else { o.add(&count) };
+                    prefix_ok &= !acc(&outside)?;
                 }
             }
             if !prefix_ok {
-                obs.label("accepted words are not a prefix of the candidate interval: count not decidable, skipped");
+                obs.label("accepted words are neither a prefix nor a suffix of the candidate interval: count not decidable, skipped");
                 return Ok(());
             }
             vlib::runner::count_cmp(1);
@@ -583,7 +596,7 @@ fn main() {
     runner::main(
         Property {
             id: "C20",
-            rule: "The RNG is a ScriptRng: its output stream is a byte script chosen by the generator (then zeros), and it records how many bytes were drawn, so words are chosen, not left to chance. (1) Standard / Fill: for any script, gen::<T>() has the successive BYTES-sized little-endian chunks of the script as its pattern (hence every value is reachable), a slice fill of k elements consumes k*BYTES bytes and equals k successive gen() calls, Fill::try_fill == try_fill_slice. (2) Membership and exact mapping for gen_range(lo..hi), gen_range(lo..=hi), Uniform::new/new_inclusive + sample, sample_single(_inclusive): bounds from structured pairs sorted on the reference side and ranges of size 1, 2, 2^k, 2^k+-1, 2^W-1 and the full range, signed ranges spanning zero; the result lies in the range and equals lo + floor(v*range/2^W) for the last (accepted) word v. (3) Unbiasedness, exhaustive at 8 bits (every one of the 32 896 ranges x all 256 words x 2 samplers, U and I) and over all 65 536 words for special + generated ranges of the four 16-bit types: among ACCEPTED words (those after which no further word is drawn) every value of the range has the same number (>= 1) of preimages. (4) Unbiasedness above 16 bits (the leading_zeros zone branch): for ranges of size >= 2^(W-6) (any width up to 1088 bits) and of size >= 2^(W-16) on the 24- and 32-bit types all (<= 65 resp. <= 65 537) candidate words of six output values (0, 1, range-1, range/2, two generated) are enumerated and must have equal, non-zero accepted counts; in the thorough tier the complete 2^24 word space of the 24-bit types is enumerated for a few small ranges. (5) Small ranges on wide types (33..1088 bits): the number of accepted candidate words of 4-7 output values is located by bisection (assuming the accepted candidates of one output value form a prefix of its candidate interval - spot-checked on both sides of the boundary, the case is skipped if it does not hold) and must be equal. (6) Acceptance is a property of the word: K in {1, 2, 127..130, 200, 257, uniform < 300} copies of a word that is rejected when it comes first, followed by an accepted word, must consume exactly K+1 words. NON-TRIVIAL: range size not a power of two, or full range / size 1; scripts of at least one word. distinct = distinct (profile, job, inputs) by 64-bit hash.",
+            rule: "The RNG is a ScriptRng: its output stream is a byte script chosen by the generator followed by a fixed pseudo-random tail (a pure function of the position, so that rejection loops end whichever words a sampler accepts; a sampler that has not returned after 128 KiB of tail is reported as stuck), and it records how many bytes were drawn, so words are chosen, not left to chance. (1) Standard / Fill: for any script, gen::<T>() has the successive BYTES-sized little-endian chunks of the script as its pattern (hence every value is reachable), a slice fill of k elements consumes k*BYTES bytes and equals k successive gen() calls, Fill::try_fill == try_fill_slice. (2) Membership and exact mapping for gen_range(lo..hi), gen_range(lo..=hi), Uniform::new/new_inclusive + sample, sample_single(_inclusive): bounds from structured pairs sorted on the reference side and ranges of size 1, 2, 2^k, 2^k+-1, 2^W-1 and the full range, signed ranges spanning zero; the result lies in the range and equals lo + floor(v*range/2^W) for the last (accepted) word v. (3) Unbiasedness, exhaustive at 8 bits (every one of the 32 896 ranges x all 256 words x 2 samplers, U and I) and over all 65 536 words for special + generated ranges of the four 16-bit types: among ACCEPTED words (those after which no further word is drawn) every value of the range has the same number (>= 1) of preimages. (4) Unbiasedness above 16 bits (the leading_zeros zone branch): for ranges of size >= 2^(W-6) (any width up to 1088 bits) and of size >= 2^(W-16) on the 24- and 32-bit types all (<= 65 resp. <= 65 537) candidate words of six output values (0, 1, range-1, range/2, two generated) are enumerated and must have equal, non-zero accepted counts; in the thorough tier the complete 2^24 word space of the 24-bit types is enumerated for a few small ranges. (5) Small ranges on wide types (33..1088 bits): the number of accepted candidate words of 4-7 output values is located by bisection (assuming the accepted candidates of one output value form a prefix or a suffix of its candidate interval - spot-checked inside and outside, the case is skipped if it does not hold) and must be equal. (6) Acceptance is a property of the word: K in {1, 2, 127..130, 200, 257, uniform < 300} copies of a word that is rejected when it comes first, followed by an accepted word, must consume exactly K+1 words. NON-TRIVIAL: range size not a power of two, or full range / size 1; scripts of at least one word. distinct = distinct (profile, job, inputs) by 64-bit hash.",
             assumptions: &[
                 "a word is 'accepted' iff the sampler draws no further word after it (observed through the byte counter of the scripted RNG)",
                 "the word -> value correspondence lo + floor(v*range/2^W) (rand 0.8's widening-multiply scheme, which bnum's own rand tests pin by comparing with the primitives under the same seed) is part of the oracle; a different unbiased scheme would require revisiting checks (2), (4) and (5)",
@@ -592,6 +605,6 @@ fn main() {
             ],
         },
         jobs,
-        &[("refint", vlib::refint::self_test)],
+        &[("refint", vlib::refint::self_test), ("script_rng", vlib::script_rng::self_test)],
     );
 }
